@@ -67,6 +67,8 @@ fn main() {
         ("timing", "record") => timing::record(&args, &mut s),
         ("hitobj", "replay") => hitobj::replay(&args, &mut s),
         ("hitobj", "record") => hitobj::record(&args, &mut s),
+        ("hitobj", "c06rel") => hitobj::c06_relation(&args, &mut s),
+        ("timing", "c06rel") => timing::c06_relation(&args, &mut s),
         ("events", "replay") => events::replay(&args, &mut s),
         ("events", "record") => events::record(&args, &mut s),
         ("curve", "replay") => curve::replay(&args, &mut s),
